@@ -4,7 +4,7 @@
    exercised by the oracle comparison of harness/props/c01.py.  C01 is PARTIAL. *)
 From Coq Require Import List Arith Bool Lia ZArith QArith.
 From Verif.C06 Require Import Model.
-From Verif.C01 Require Import Model Proofs Kernel Printer.
+From Verif.C01 Require Import Model Proofs Kernel Kernel2 Printer.
 Import ListNotations.
 Close Scope Q_scope. Open Scope nat_scope.
 
@@ -245,6 +245,87 @@ Print Assumptions kernel_body_accumulates.
 Print Assumptions entry_denotes_gauss_sum.
 Print Assumptions entry_denotes_full_gauss_sum.
 
+(* ---- the two phases, symmetric storage, vector kernels (coq/C01/Kernel2.v) ---------------------------------- *)
+Section Layer4b.
+Variable F : Type.
+Variables (f0 : F) (fadd fmul fsub fdiv : F -> F -> F) (fopp : F -> F).
+Variable lay : String.string -> nat -> loc.
+Variable shp : String.string -> list nat.
+Variable sz : String.string -> nat.
+Hypothesis lay_inj : forall n k n' k', lay n k = lay n' k' -> n = n' /\ k = k'.
+Hypothesis add_0_l : forall x, fadd f0 x = x.
+Hypothesis add_0_r : forall x, fadd x f0 = x.
+Hypothesis add_assoc : forall x y z, fadd x (fadd y z) = fadd (fadd x y) z.
+
+(* precompute_fields, then the kernel: the precomputable definitions [pre] (no basis functions) are run once per
+   Gauss node by a program that has NO basis-function jets (nc_pre: any pdv) from the store st0 holding inputs and
+   parameters; of what it leaves only fields[]/constants[] survive (is_glob) -- the kernel starts from a store st2
+   that is ARBITRARY on local names; the kernel's own definitions [ker] may read the surviving variables G only.
+   Then the integrand code evaluates to the C06 value of the WHOLE scheduled forest pre ++ ker at that node.
+   This replaces the hypothesis [Agree] of kernel_denotes_integrand for everything precompute computes: what is
+   left as hypothesis is [Agree st0 en known] for the SOURCED variables (input fields, parameters) only. *)
+Theorem precompute_then_kernel_equals_forest :
+  forall (nc nc_pre : nctx F) (st0 st2 : store F) (en : env F) known G pre ker es cs,
+  wf_prog F lay shp sz known pre -> nobf_defs F pre ->
+  incl G (names_after F known pre) -> (forall n k, In n G -> is_glob (lay n k) = true) ->
+  wf_prog F lay shp sz G ker -> omap (compile F lay shp) es = Some cs ->
+  Forall (wfe F shp sz (names_after F G ker)) es ->
+  Agree F lay shp sz st0 en known -> Ctx F nc en ->
+  (forall a, gwv F nc_pre a = gwv F nc a) -> (forall f x, fnv F nc_pre f x = fnv F nc f x) ->
+  (forall l, is_glob l = true -> st2 l = run_defs F fadd fmul fsub fdiv fopp lay shp nc_pre st0 pre l) ->
+  map (ceval F fadd fmul fsub fdiv fopp nc (run_defs F fadd fmul fsub fdiv fopp lay shp nc st2 ker)) cs
+  = map (eval F fadd fmul fsub fdiv fopp (eval_defs F f0 fadd fmul fsub fdiv fopp en (pre ++ ker))) es.
+Proof. exact (precompute_then_kernel_equals_forest_l F f0 fadd fmul fsub fdiv fopp lay shp sz lay_inj). Qed.
+
+(* vector-valued kernels: `r[i] += code(e_i)` for every integrand vector accumulates, in component k, exactly what the
+   scalar kernel body accumulates for the k-th components ... *)
+Theorem kernel_body_accumulates_components : forall nc st css r k,
+  kernel_body_vec F fadd fmul fsub fdiv fopp nc st css r k
+  = kernel_body F fadd fmul fsub fdiv fopp nc st (comp F k css) (r k).
+Proof. exact (kernel_body_vec_component F fadd fmul fsub fdiv fopp). Qed.
+
+(* ... the nested loops with a vector accumulator are the scalar loops per component ... *)
+Theorem vector_loop_is_componentwise : forall ns (f : list nat -> nat -> F) acc k,
+  loop_box (nat -> F) (vadd F fadd) ns f acc k = loop_box F fadd ns (fun idx => f idx k) (acc k).
+Proof. exact (loop_box_component F fadd). Qed.
+
+(* ... hence entry_denotes_gauss_sum holds for every component block of a vector-valued assembler *)
+Theorem entry_denotes_gauss_sum_component :
+  forall k (s1 s2 : list (nat * nat)) (fvec : list nat -> nat -> F)
+         (nc : list nat -> nctx F) (st : list nat -> store F) (en : list nat -> env F) known ds es cs,
+  wf_prog F lay shp sz known ds -> omap (compile F lay shp) es = Some cs ->
+  Forall (wfe F shp sz (names_after F known ds)) es ->
+  (forall idx, Agree F lay shp sz (st idx) (en idx) known /\ Ctx F (nc idx) (en idx)) ->
+  (forall idx, fvec idx k = sumF F f0 fadd (map (ceval F fadd fmul fsub fdiv fopp (nc idx)
+                                             (run_defs F fadd fmul fsub fdiv fopp lay shp (nc idx) (st idx) ds)) cs)) ->
+  entry_impl (nat -> F) (vzero F f0) (vadd F fadd) s1 s2 fvec k
+  = match entry_ranges s1 s2 with
+    | None => f0
+    | Some rs => sum_box F f0 fadd rs
+        (fun idx => sumF F f0 fadd (map (eval F fadd fmul fsub fdiv fopp
+                                           (eval_defs F f0 fadd fmul fsub fdiv fopp (en idx) ds)) es))
+    end.
+Proof. exact (entry_denotes_gauss_sum_component_l F f0 fadd fmul fsub fdiv fopp lay shp sz lay_inj add_0_l add_0_r add_assoc). Qed.
+End Layer4b.
+Print Assumptions precompute_then_kernel_equals_forest.
+Print Assumptions kernel_body_accumulates_components.
+Print Assumptions vector_loop_is_componentwise.
+Print Assumptions entry_denotes_gauss_sum_component.
+
+(* symmetric variables: gen_assign writes the entries i <= j of the defining matrix expression to the slots
+   ofs + sym_index_to_seq n i j (one after the other); if the expression is symmetric at that node, then EVERY
+   reference var_ref(var, (i,j)) -- in either index order -- reads the value of the expression's (i,j) entry, and no slot
+   outside the variable's block of n(n+1)/2 is touched.  (Injectivity on i <= j and slot(i,j) = slot(j,i):
+   sym_index_bijection.)  The symmetry of the expression is the user's promise `symmetric=True`. *)
+Theorem symmetric_storage_sound : forall (F : Type) (mk : nat -> loc) n ofs (vals : nat -> nat -> F) (st : store F),
+  (forall a b, mk a = mk b -> a = b) ->
+  (forall i j, i < n -> j < n -> vals i j = vals j i) ->
+  let st' := write_all F mk st (sym_writes F n ofs vals) in
+  (forall i j, i < n -> j < n -> st' (mk (ofs + sym_index_to_seq n i j)) = vals i j) /\
+  (forall l, (forall s, s < n * (n + 1) / 2 -> l <> mk (ofs + s)) -> st' l = st l).
+Proof. exact symmetric_storage_sound_l. Qed.
+Print Assumptions symmetric_storage_sound.
+
 (* The concrete syntax (coq/C01/Printer.v): [print] mirrors gencode_* token by token (every binary node in
    brackets, prefix minus, f(...)); [parse] is a precedence-climbing parser with the operator precedence of
    C/Cython (unary minus > * / > + -, left associative).  Reading the printed code back gives the expression tree
@@ -255,13 +336,15 @@ Proof. exact printed_code_parses_back_l. Qed.
 Print Assumptions printed_code_parses_back.
 
 (* NOT PROVED within the model:
-     - the precompute_fields function: the same statement with the store threading of `fields`/`temp_fields`
-       written per node BEFORE the kernel runs; here it is the hypothesis [Agree] on the variables in [known]
-       (the program model run_defs covers it verbatim -- it is one more run_defs over the precomp list -- but
-       the two-phase statement with is_global classification is not stated);
-     - symmetric variables (one stored slot for (i,j) and (j,i)): [lay] is assumed injective on (variable, entry);
-       needs the user's promise that the defining matrix expression is symmetric;
-     - vector-valued kernels (r[k] += ...) are the componentwise instance, not stated separately;
+     - symmetric variables are proved as a storage statement (symmetric_storage_sound) but are not yet a case of
+       [wf_prog]/[run_defs]: kernel_denotes_integrand and precompute_then_kernel_equals_forest assume a layout that is
+       injective on (variable, row-major entry), i.e. forests without `symmetric=True` variables;
+     - precompute_then_kernel_equals_forest is stated for the emitted order "all precomputable definitions, then the
+       kernel's"; that this order and the interleaved topological order of vform.dependency_analysis denote the same
+       environment is C06's schedule_computes_the_denotation (not re-stated here); the classification itself
+       (scope != BASISFUN, is_global) is a hypothesis (nobf_defs, is_glob), checked on the generated text by
+       harness/props/c01.py (statement order, read-before-write);
+     - the input copies of __init__ (fields[..., ofs:ofs+sz] = grid_eval(...)) are the hypothesis [Agree st0 en known];
      - that the characters printed by CodeGen are the token streams of [print]: tied exactly on every run (the token
        stream of the generated text of sampled expressions = [print] of their tree, compared inside Coq; and an
        independent C-precedence parser in harness/props/c01.py reads every printed expression back to its tree),
